@@ -114,8 +114,9 @@ class C16(F.PropCheck):
         for i in range(npk):
             k = rng.random(); dev = []
             if i == bad_at:
-                m = rng.randrange(12)
-                if m == 0: p = pkt(rng.choice([0, 15]), rng.randrange(16), rbytes(rng.randrange(0, 6))); tags.append('bad:reserved-type')
+                m = rng.randrange(13)
+                if m == 12: p = connack(0); tags.append('bad:second-connack')
+                elif m == 0: p = pkt(rng.choice([0, 15]), rng.randrange(16), rbytes(rng.randrange(0, 6))); tags.append('bad:reserved-type')
                 elif m == 1:
                     t = rng.choice([2, 4, 5, 6, 7, 9, 11, 13]); fl = rng.choice([f for f in range(16) if f != REQ_FLAGS[t]])
                     body = {2: b'\0\0', 9: b'\0\1\0', 13: b''}.get(t, b'\0\1'); p = pkt(t, fl, body); tags.append('bad:flags')
@@ -150,6 +151,9 @@ class C16(F.PropCheck):
                 p = publish(topic(tl), rbytes(pln), qos=q, pid=bpid, dup=rng.choice([0, 0, 0, 1]), retain=rng.choice([0, 1]))
                 if q == 2: qos2_open.append(bpid)
                 tags.append('publish-qos%d' % q)
+            elif k < 0.66 and qos2_open:
+                # retransmission of a QoS 2 PUBLISH whose PUBREL has not been sent yet (same id, DUP set)
+                p = publish(b'dup/topic', b'again', qos=2, pid=rng.choice(qos2_open), dup=1); tags.append('publish-qos2-retransmit')
             elif k < 0.72:
                 pid = next_dev_pid[0]; next_dev_pid[0] += rng.randrange(1, 5)
                 dev.append(('SUB', [pid, 10], b'')); p = suback(pid, [rng.choice([0, 0, 0, 1, 2, 0x80])]); tags.append('suback')
